@@ -47,6 +47,11 @@ pub struct Folded {
     pub max_worker_id: u32,
     pub max_queue_id: u32,
     pub queues: BTreeSet<u32>,
+    /// live queue -> (parameters as JSON, resources of the last worker that connected from one
+    /// of its allocations, as JSON)
+    pub queue_details: BTreeMap<u32, (String, Option<String>)>,
+    pub alloc_queue: BTreeMap<String, u32>,
+    pub queue_worker_res: BTreeMap<u32, String>,
     pub server_uid: Option<String>,
     pub has_terminal_and_not: bool,
     pub multi_submit: bool,
@@ -73,8 +78,15 @@ pub fn fold(events: &[Event]) -> Folded {
                     }
                 }
             }
-            EventPayload::WorkerConnected(id, _) => {
+            EventPayload::WorkerConnected(id, cfg) => {
                 f.max_worker_id = f.max_worker_id.max(id.as_num());
+                use hyperqueue::common::manager::info::GetManagerInfo;
+                if let Some(info) = cfg.get_manager_info() {
+                    if let Some(q) = f.alloc_queue.get(&info.allocation_id) {
+                        f.queue_worker_res
+                            .insert(*q, serde_json::to_string(&cfg.resources).unwrap_or_default());
+                    }
+                }
             }
             EventPayload::WorkerLost(id, reason) => {
                 f.max_worker_id = f.max_worker_id.max(id.as_num());
@@ -224,17 +236,26 @@ pub fn fold(events: &[Event]) -> Folded {
                     }
                 }
             }
-            EventPayload::AllocationQueueCreated(id, _) => {
+            EventPayload::AllocationQueueCreated(id, params) => {
                 f.max_queue_id = f.max_queue_id.max(*id);
                 f.queues.insert(*id);
+                f.queue_details
+                    .insert(*id, (serde_json::to_string(&**params).unwrap_or_default(), None));
             }
             EventPayload::AllocationQueueRemoved(id) => {
                 f.max_queue_id = f.max_queue_id.max(*id);
                 f.queues.remove(id);
+                f.queue_details.remove(id);
             }
-            EventPayload::AllocationQueued { queue_id, .. } => {
+            EventPayload::AllocationQueued {
+                queue_id,
+                allocation_id,
+                ..
+            } => {
                 f.max_queue_id = f.max_queue_id.max(*queue_id);
+                f.alloc_queue.insert(allocation_id.clone(), *queue_id);
             }
+
             EventPayload::AllocationStarted(q, _) | EventPayload::AllocationFinished(q, _) => {
                 f.max_queue_id = f.max_queue_id.max(*q);
             }
@@ -258,6 +279,7 @@ pub struct Restored {
     /// task -> (remaining deps, next instance id, crash counter)
     pub pending: BTreeMap<TaskId, (Vec<TaskId>, u32, u32)>,
     pub queues: Vec<u32>,
+    pub queue_details: Vec<(u32, String, Option<String>)>,
 }
 
 pub struct CutResult {
@@ -328,6 +350,11 @@ pub fn restore_from(
             .collect(),
         queues: {
             let mut q = info.queues.clone();
+            q.sort();
+            q
+        },
+        queue_details: {
+            let mut q = info.queue_details.clone();
             q.sort();
             q
         },
@@ -555,6 +582,31 @@ pub fn check_against_fold(
             "restored allocation queues differ from the journal",
             format!("{label}: journal {q:?} restored {:?}", cut.restored.queues),
         );
+    } else {
+        for (id, params, res) in &cut.restored.queue_details {
+            if let Some((p, _)) = f.queue_details.get(id) {
+                if p != params {
+                    alarm(
+                        obs,
+                        "C10",
+                        "restored allocation queue has different parameters than recorded",
+                        format!("{label}: queue {id}: journal {p} restored {params}"),
+                    );
+                }
+            }
+            let expect = f.queue_worker_res.get(id);
+            if expect != res.as_ref() {
+                alarm(
+                    obs,
+                    "C10",
+                    "restored allocation queue has different worker resources than the last worker recorded for it",
+                    format!("{label}: queue {id}: journal {expect:?} restored {res:?}"),
+                );
+            }
+        }
+    }
+    if !f.queues.is_empty() {
+        obs.class("restore-with-allocation-queues");
     }
 }
 
@@ -775,7 +827,8 @@ pub async fn restore_phase(sim: &mut Sim, seed: u64) {
         }
         // run the restored server to completion for one cut per case
         if ci == drain_at {
-            drain_restored(sim, cut, prefix_events, &f, &label).await;
+            let seed2 = lcg(&mut rng);
+            drain_restored(sim, cut, prefix_events, &f, &label, seed2).await;
         }
     }
     if nontrivial {
@@ -786,12 +839,25 @@ pub async fn restore_phase(sim: &mut Sim, seed: u64) {
 
 /// Continue the restored server with capable workers: every unfinished task runs exactly once
 /// more, closed jobs complete.
-async fn drain_restored(sim: &mut Sim, cut: CutResult, prefix: &[Event], f: &Folded, label: &str) {
+async fn drain_restored(
+    sim: &mut Sim,
+    cut: CutResult,
+    prefix: &[Event],
+    f: &Folded,
+    label: &str,
+    seed2: u64,
+) {
     let obs2 = Rc::new(RefCell::new(Obs::default()));
     obs2.borrow_mut().epochs.push(EpochObs::default());
     let mut mon = Monitors::default();
     mon.load_base(prefix, &cut.world);
+    // second generation (generator version >= 1, every other case): the restored server does not
+    // just finish the work, it lives on under the same kind of random history (new submits into
+    // restored open jobs, cancels, worker losses, prunes, ...) and is then stopped and restored
+    // once more: journals with earlier restarts in them
+    let second = sim.genv >= 1 && (seed2 & 1) == 1 && !sim.case_choices.is_empty();
     let mut sim2 = Sim {
+        case_choices: Vec::new(),
         genv: sim.genv,
         world: cut.world,
         obs: obs2.clone(),
@@ -799,8 +865,8 @@ async fn drain_restored(sim: &mut Sim, cut: CutResult, prefix: &[Event], f: &Fol
         weights: profile_weights("journal"),
         limits: Limits {
             max_workers: 5,
-            max_tasks: 0,
-            max_jobs: 0,
+            max_tasks: if second { 40 } else { 0 },
+            max_jobs: if second { 8 } else { 0 },
         },
         eager: true,
         worker_counter: 100,
@@ -811,6 +877,83 @@ async fn drain_restored(sim: &mut Sim, cut: CutResult, prefix: &[Event], f: &Fol
         total_tasks_submitted: 0,
     };
     sim2.world.set_step(1);
+    if second {
+        let n = sim.case_choices.len();
+        let start = (seed2 as usize >> 1) % n;
+        let take = 12 + (seed2 as usize >> 9) % 30;
+        for k in 0..take {
+            let (c, c2) = sim.case_choices[(start + k) % n];
+            let step = sim2.world.step_no() + 1;
+            sim2.world.set_step(step);
+            let Some(action) = sim2.choose(c, c2) else {
+                continue;
+            };
+            sim2.obs
+                .borrow_mut()
+                .trace
+                .push(format!("{action:?} (did not complete)"));
+            let d = sim2.apply(action).await;
+            *sim2.obs.borrow_mut().trace.last_mut().unwrap() = format!("{step}: [2nd] {d}");
+            sim2.mon.after_step(&sim2.world, &mut sim2.obs.borrow_mut());
+            if crate::sim::PANICS.with(|p| !p.borrow().is_empty()) {
+                break;
+            }
+        }
+        if crate::sim::PANICS.with(|p| p.borrow().is_empty()) {
+            // stop here and restore once more from what is durable now
+            sim2.service_io().await;
+            sim2.world.journal_flush_all();
+            let path2 = sim2.world.journal.path.clone();
+            let cut2 = sim2.params.dir.join("cut2.bin");
+            if let Ok((b2, ev2)) = World::record_boundaries(&path2) {
+                if let Some(end) = b2.last().copied() {
+                    if copy_prefix(&path2, &cut2, end).is_ok() {
+                        let f2 = fold(&ev2);
+                        let label2 = format!("{label}; second restart after {} more records", ev2.len().saturating_sub(prefix.len()));
+                        let params2 = WorldParams {
+                            dir: sim2.params.dir.clone(),
+                            prefill: sim2.params.prefill,
+                        };
+                        match restore_from(&params2, &cut2, sim2.world.origin, sim2.world.offset) {
+                            Ok(c2) => {
+                                let mut obs = sim.obs.borrow_mut();
+                                check_against_fold(&mut obs, &f2, &c2, &label2);
+                                if c2.info.worker_id_counter.as_num() < f2.max_worker_id {
+                                    alarm(
+                                        &mut obs,
+                                        "C11",
+                                        "worker id reused after restart",
+                                        format!(
+                                            "{label2}: next worker id {} but the journal mentions worker {}",
+                                            c2.info.worker_id_counter.as_num() + 1,
+                                            f2.max_worker_id
+                                        ),
+                                    );
+                                }
+                                obs.class("second-restart");
+                                if f2.restarts >= 2 {
+                                    obs.class("journal-with-earlier-restarts");
+                                }
+                            }
+                            Err(e) => {
+                                let sig = if e.starts_with("restore panics") {
+                                    let loc = e
+                                        .split("/crates/")
+                                        .nth(1)
+                                        .and_then(|s| s.split(": ").next())
+                                        .unwrap_or("?");
+                                    format!("restart from the journal panics at {loc}")
+                                } else {
+                                    "restart from the journal fails".to_string()
+                                };
+                                alarm(&mut sim.obs.borrow_mut(), "C10", &sig, format!("{label2}: {e}"));
+                            }
+                        }
+                    }
+                }
+            }
+        }
+    }
     let q = sim2.drain(true).await;
     let panicked = crate::sim::PANICS.with(|p| !p.borrow().is_empty());
     let mut obs = sim.obs.borrow_mut();
@@ -844,6 +987,22 @@ async fn drain_restored(sim: &mut Sim, cut: CutResult, prefix: &[Event], f: &Fol
         }
     }
     for (j, jf) in &f.jobs {
+        if second {
+            // faults and cancels happened after the restart: only "never run again" is judged
+            for (id, tf) in &jf.tasks {
+                let t = TaskId::new(*j, (*id).into());
+                let n = builds.get(&t).copied().unwrap_or(0);
+                if tf.kind.terminal() && n > 0 {
+                    alarm(
+                        &mut obs,
+                        "C10",
+                        "task with a recorded outcome was run again after the restart",
+                        format!("{label}: {t} recorded {:?}, executed {n} times", tf.kind),
+                    );
+                }
+            }
+            continue;
+        }
         for (id, tf) in &jf.tasks {
             let t = TaskId::new(*j, (*id).into());
             let n = builds.get(&t).copied().unwrap_or(0);
@@ -1020,6 +1179,16 @@ fn check_prune(
                         "pruned journal restores different allocation queues",
                         format!("{:?} vs {:?}", a.restored.queues, b.restored.queues),
                     );
+                } else if a.restored.queue_details != b.restored.queue_details {
+                    alarm(
+                        &mut obs,
+                        "C12",
+                        "pruned journal restores allocation queues with different parameters or worker resources",
+                        format!("{:?} vs {:?}", a.restored.queue_details, b.restored.queue_details),
+                    );
+                }
+                if !a.restored.queues.is_empty() {
+                    obs.class("prune-with-allocation-queues");
                 }
             }
             (Err(e), Ok(_)) => {
